@@ -147,8 +147,6 @@ def run(ctx):
     seeds = [ctx.seed * 100003 + k for k in range(nrel)]
     jobs += [("call", dict(module="harness.polyalg", func="relation_traces", args=dict(seeds=seeds[k:k + 50], transforms=3)))
              for k in range(0, nrel, 50)]
-    # interleave so that the pool's chunks mix heavy (chain files) and light (relation) jobs
-    jobs = [j for pair in zip(jobs[::2], jobs[1::2] + [None]) for j in pair if j is not None] if len(jobs) > 3 else jobs
     ph['prepare'] = round(time.time() - T0, 1)
     res = rf.replay_all(ctx, jobs)
     ph['replay'] = round(time.time() - T0, 1)
